@@ -50,7 +50,7 @@ func parsePattern(p string) []tok {
 			i = j
 			continue
 		}
-		lit += string(c)
+		lit += p[i : i+1] // (a byte, not a rune)
 		i++
 	}
 	if lit != "" {
@@ -415,6 +415,12 @@ var oddAlpha = []string{"/", "a", " ", "%", ".", "?", "\x00", "\xff", "\xc3\xa9"
 // oddNames: a placeholder's name runs to the next '/', whatever bytes it contains.
 var oddNames = []string{"a", ":p", ":p.q", ":p q", ":p-q", ":p=q", ":p%2Fq"}
 
+// nonASCII: literal segments made of multi-byte runes and of bytes that are not valid UTF-8 at all:
+// the trie works on bytes, so every byte value is an ordinary edge label; the paths contain the same
+// runes whole, cut in two, and as their Latin-1 neighbours.
+var nonASCII = []string{"a", "\xc3\xa9", "\xe6\x97\xa5", "\xff", ":p", "a=:p"}
+var nonASCIIPath = []string{"/", "a", "\xc3\xa9", "\xe6\x97\xa5", "\xc3", "\xa9", "\xe9", "\xff", "="}
+
 type sweep struct {
 	name     string
 	universe []string
@@ -464,6 +470,7 @@ func main() {
 			{"mid-segment-placeholders", universe([]string{"a", ":p", "a.:p"}, 3, true), []int{1, 2, 3}, paths([]string{"/", "a", ".", "x", ":", "#"}, 7), true},
 			{"odd-bytes", small, []int{1, 2}, paths(oddAlpha, 6), true},
 			{"odd-placeholder-names", universe(oddNames, 3, true), []int{1, 2}, paths([]string{"/", "a", "q", ".", " ", "-", "="}, 6), true},
+			{"non-ascii-literals", universe(nonASCII, 3, true), []int{1, 2}, paths(nonASCIIPath, 6), true},
 		}
 	} else {
 		sweeps = []sweep{
@@ -472,6 +479,7 @@ func main() {
 			{"mid-segment-placeholders", universe([]string{"a", ":p", "a.:p"}, 3, true), []int{1, 2}, paths([]string{"/", "a", ".", "x", ":"}, 7), true},
 			{"odd-bytes", small, []int{1, 2}, paths(oddAlpha, 5), true},
 			{"odd-placeholder-names", universe(oddNames, 2, true), []int{1, 2}, paths([]string{"/", "a", "q", ".", " ", "-", "="}, 5), true},
+			{"non-ascii-literals", universe(nonASCII, 2, true), []int{1, 2}, paths(nonASCIIPath, 5), true},
 		}
 	}
 	r.Set("path_alphabet", alpha)
